@@ -195,8 +195,8 @@ CHECKS = {
                 "Every response: <= k results, distinct ids, all in the model now, non-decreasing distance, reported distance inside the interval spanned by the cold-tier and hot-tier formulas on the stored vector "
                 "(+- 3e-5 + 3e-4 |d|; cache hits are judged against the query of the entry that was served); every acknowledged write still in the recent-write tier that is strictly closer than the k-th result is present "
                 "(not judged for degraded/timed/cache-hit responses). evaluations = responses judged. distinct_nontrivial = distinct hashes of the (result count, execution path) sequence of runs with >1 search.",
-        "assumptions": ["a timeout firing in the middle of a tier search is not scheduled deterministically (zero timeouts and pre-set conditions only)", "recall of the approximate index is not judged (C16 is not applicable)"],
-        "expected_probes": ["path_cache_hit", "path_hot_and_cold", "path_hot_only", "path_cold_only", "path_degraded", "load_shed", "drain_between_searches"],
+        "assumptions": ["the timed search path never times out here: expiry of the hot/cold tier timeouts would race with tokio's blocking pool, which the simulator does not schedule, so the degraded / partial-result branch is not explored", "a timeout firing in the middle of a tier search is not scheduled deterministically (zero timeouts and pre-set conditions only)", "recall of the approximate index is not judged (C16 is not applicable)"],
+        "expected_probes": ["path_cache_hit", "path_hot_and_cold", "path_hot_only", "path_cold_only", "load_shed", "drain_between_searches"],
         "tiers": {"quick": {"runs_per_worker": 1000000, "budget_s": 35}, "thorough": {"runs_per_worker": 10000000, "budget_s": 600}},
         "level_text": "Seeded exploration of histories x inputs x configurations; each search response judged exactly for soundness and recent-write completeness against a brute-force reference.",
         "level_note": "trusted base: reference map + f64 distance reference with a stated tolerance; pin of stored vectors",
